@@ -153,7 +153,7 @@ prop('C07',
            '(values first, errors first, alternating, stepwise, fair only); generated: inputs up to 40 elements with duplicates, random failing value sets, random scripts, error values that wrap '
            'context.Canceled / DeadlineExceeded / io.EOF, StdErr wrapping; oracle: exact value and error sequences per mode, both channels closed, call count = k+1 and elements removed <= k+1 under fail-fast, '
            'fail-fast closes without waiting for further input, no stuck state under a fair consumer that reads the error channel; '
-           'error values also include a slice-typed (non-comparable) error type; every enumerated Map/FMap mask is also run with the library's own StdErr as the error reader; non-trivial = at least one failing and one succeeding element with a success after the first failure; distinct = different canonical scenario'),
+           'error values also include a slice-typed (non-comparable) error type; every enumerated Map/FMap mask is also run with the StdErr reader of the library itself as the error reader; non-trivial = at least one failing and one succeeding element with a success after the first failure; distinct = different canonical scenario'),
      assumptions=E3_ASSUME + ['the error channel is always eventually read (proviso of the statement)', 'a failing arrow emits nothing before failing'],
      parts=[
          dict(name='enum', engine='E3', pkg='pipes', test='TestC07Enum', kind='plain',
@@ -384,7 +384,7 @@ prop('C18',
            'under 3 drawn height seeds (virtual clock offset inside a synctest bubble, which is what seeds the node heights); oracle: Go map for every '
            'return value and for Get of the whole universe after EVERY step, plus the parsed String() form after every step (live keys strictly ascending '
            'under the scenario order and equal to the model key set, forward pointers only to strictly larger live keys); '
-           'string keys include '%' characters (100%, %v, a%sb, %d%%); non-trivial = the history re-inserts or reads a removed key, overwrites a key, or inserts in descending order; distinct = different canonical scenario'),
+           'string keys include percent characters (100%, %v, a%sb, %d%%); non-trivial = the history re-inserts or reads a removed key, overwrites a key, or inserts in descending order; distinct = different canonical scenario'),
      assumptions=['internal/maplike is exercised as a staged copy of the working-tree sources under the import path github.com/fogfish/golem/maplike',
                   'node heights are made deterministic through the bubble clock only (no source change): skiplist.New seeds from time.Now()',
                   'string keys are non-empty and contain no blanks so that the printed form can be parsed unambiguously'],
